@@ -10,6 +10,7 @@
 -/
 import Ctrmml.Proofs.TrackBuilder
 import Ctrmml.Proofs.Mml
+import Ctrmml.Proofs.ReaderLine
 import Ctrmml.Spec.MmlMeaning
 namespace Ctrmml.C05
 open Ctrmml Ctrmml.Tables Ctrmml.Lexer Ctrmml.TrackBuilder Ctrmml.Mml
@@ -396,23 +397,88 @@ example : (((Track.new).setOctave 3).addNote 2 24).getEvents = [{ type := 2, par
 
 /-! ## reader layer
 
-The general reader theorems of the design (`getNum_render`, `read_duration_render`,
-`parse_render`) are NOT proved here; `Proofs/Mml` holds the first lemmas (`takeDigits_dec`,
-`countSpaces_dec`, `digitVal_dec`).  The reader is carried by the correspondence check (every
-generated text is parsed by model and code and all events, references, error messages and
-positions are compared) and by the spec oracle (`Spec/MmlMeaning.meaning` of the generated AST
-against the implementation's events).  The statements, for the record: -/
+`Proofs/ReaderNum`, `Proofs/ReaderCmd`, `Proofs/ReaderLine`.  Technique: `LineBuffer.getNum` is
+proved EQUAL, on every buffer, to the state-free function `numSpan` of the rest of the line; the
+`P`-monad code is run symbolically by rewriting one `>>=` at a time (`bind_ok`) with a
+specification of each primitive in terms of `suffix` (rest of the line) and `adv` (cursor moved).
 
-/-- `get_num` on a decimal numeral followed by a non-digit reads its value and stops behind it -/
-def C05_full_statement_getNum_render : Prop :=
-  ∀ (pre ds rest : List Nat), ds ≠ [] → (∀ d ∈ ds, d < 10) → digitsValue 10 ds < 2147483648 →
-    (∀ c, rest.head? = some c → digitVal 10 c = none) →
-    (LineBuffer.getNum { buf := pre ++ decChars ds ++ rest, column := pre.length }) =
-      .ok (some (digitsValue 10 ds : Int), { buf := pre ++ decChars ds ++ rest, column := pre.length + ds.length })
+Covered commands (`Covered`): notes `a`..`h` with accidental and duration, `r`, `^`, `l` (each with
+every duration form: none, dots, length, `:frames`, decimal or `$` hexadecimal), `o n`, `<`, `>`,
+`Q n`, `q n`, `C n`, `s n`, `&` (when it finds its note).  NOT covered: `R`, `~`, `\`, `\=`, `_…`,
+`k`, `V…`, `D`, `%`, the event commands of `mml_control` / `mml_envelope` (`[ / ] L * @ v ( ) p K E M P G t T`),
+`|`, `'…'`, `{/}` — for those the reader rests on the correspondence check. -/
 
-/-- reading the canonical rendering of a command list for track `A` accepts it -/
+open Ctrmml.MmlMeaning (Num Dur Acc Cmd bodyBytes)
+
+/-- `get_num` on a rendered number (decimal or `$` hexadecimal, signed) anywhere in a line reads
+exactly its value and leaves the cursor behind it, whatever follows, provided the next byte is not
+a digit of the base (after a hexadecimal numeral also not `x`/`X`: `0x…` would be a prefix) -/
+theorem C05_getNum_render (pre rest : List Nat) (n : Num) (hb : Bytes (pre ++ n.bytes ++ rest))
+    (hr : NumRange n) (hend : NumEnd (numBase n) rest) :
+    LineBuffer.getNum { buf := pre ++ n.bytes ++ rest, column := pre.length } =
+      .ok (some n.v, { buf := pre ++ n.bytes ++ rest, column := pre.length + n.bytes.length }) := by
+  have h := getNum_eq_numSpan { buf := pre ++ n.bytes ++ rest, column := pre.length } hb (by simp)
+  have hd : (pre ++ n.bytes ++ rest).drop pre.length = n.bytes ++ rest := by simp [List.append_assoc]
+  simp only [hd, numSpan_render n rest hr.1 hr.2 hend] at h
+  exact h
+
+/-- `$-1f c` -/
+example : numSpan [36, 45, 49, 102, 32, 99] = (some (-31), 4) := by decide +kernel
+
+/-- … and `get_num` is, on every line of bytes with the cursor inside it, the state-free function
+`numSpan` of the rest of the line (value, bytes consumed) — the general form C06/C17 can use -/
+theorem C05_getNum_is_numSpan (b : LineBuffer) (hb : Bytes b.buf) (hc : b.column ≤ b.buf.length) :
+    b.getNum = .ok ((numSpan (b.buf.drop b.column)).1, { b with column := b.column + (numSpan (b.buf.drop b.column)).2 }) :=
+  getNum_eq_numSpan b hb hc
+
+/-- `read_duration` on a rendered duration (nothing, dots, `n` + dots, `:n` + dots) followed by any
+tail satisfying the look-ahead condition `DurTail`: the value is default / measure÷n / n with the
+dot series, and exactly the spelling is consumed (plus, for a duration that is not written, the
+blanks `get_num` skips: `durSkip`) -/
+theorem C05_read_duration_render (s : MmlState) (hs : Sane s) (d : Dur) (tail : List Nat)
+    (hsuf : suffix s = d.bytes ++ tail) (hn : DurNums (getTrack s) d) (ht : DurTail d tail) :
+    readDuration s = .ok (durVal (getTrack s) d).toNat (adv s (d.bytes.length + durSkip d tail)) :=
+  readDuration_render s hs d tail hsuf hn ht
+
+/-- the dot series is the one of the reference: `d + d/2 + d/4 + …` -/
+example : dotsVal 2 24 12 = 42 ∧ dotsVal 0 24 12 = 24 := by decide
+
+/-- every covered command's parser, started at the first byte of the canonical spelling followed
+by ANY tail satisfying the command's look-ahead condition `CmdTail`, answers "mine", performs
+exactly `cmdTrack` on the builder, and leaves the cursor behind the spelling (`cmdSkip`: blanks
+skipped while looking for an unwritten length); nothing else of the state changes -/
+theorem C05_command_span (s : MmlState) (hs : Sane s) (cmd : Cmd) (tail : List Nat) (hc : Covered cmd)
+    (hsuf : suffix s = cmd.bytes ++ tail) (hn : CmdNums (getTrack s) cmd) (ht : CmdTail cmd tail) :
+    mmlBasic s = .ok false (adv (setTrack s (cmdTrack (getTrack s) cmd)) (cmd.bytes.length + cmdSkip cmd tail)) :=
+  cmd_span s hs cmd tail hc hsuf hn ht
+
+/-- the look-ahead condition holds on canonical lines (end of line, or one space and a command) -/
+theorem C05_command_span_canonical (t : Track) (cmd : Cmd) (tail : List Nat) (hn : CmdNums t cmd) (ht : SepTail tail) :
+    CmdTail cmd tail := cmdTail_sepTail t cmd tail hn ht
+
+/-- whole-line theorem for the covered subset: `parse_mml_track` on the canonical body
+`c₁ c₂ … cₙ` performs exactly the builder calls of the commands in order, each stamped with the
+position of its first byte (`lineTrack`); any fuel ≥ n + 1 suffices, in particular the fuel the
+model supplies (line length + 2 − column).  Extra hypothesis (hence `_partial`): `LineNums` —
+every command is in `Covered` and its numbers are in range on the track it meets. -/
+theorem C05_parse_render_partial (cmds : List Cmd) (s : MmlState) (hs : Sane s) (hsuf : suffix s = bodyBytes cmds)
+    (hn : LineNums s.inp.line s.inp.lb.column (getTrack s) cmds) :
+    (∃ s', parseMmlTrack s = .ok () s' ∧ getTrack s' = lineTrack s.inp.line s.inp.lb.column (getTrack s) cmds) ∧
+    (∀ f, cmds.length + 1 ≤ f → ∃ s', parseMmlTrackF f s = .ok () s' ∧
+        getTrack s' = lineTrack s.inp.line s.inp.lb.column (getTrack s) cmds) := by
+  refine ⟨parse_track_body cmds s hs hsuf hn, fun f hf => ?_⟩
+  have := parse_body cmds f s 0 hs (by simpa using hsuf) (by simpa using hn) hf
+  simpa using this
+
+/-- the full statement: every documented command list -/
 def C05_full_statement_parse_render : Prop :=
-  ∀ cmds : List MmlMeaning.Cmd, (MmlMeaning.meaning cmds).exact = true →
-    ∃ st, readLines 0 [strBytes (MmlMeaning.render cmds)] MmlState.init = .ok () st
+  ∀ (cmds : List Cmd), (MmlMeaning.meaning cmds).exact = true →
+    ∃ st, readLines 0 [MmlMeaning.renderBytes cmds] MmlState.init = .ok () st
+
+/-- non-vacuity: `o4 >` satisfies `LineNums` on a fresh track -/
+example : LineNums 0 2 Track.new [.octave { v := 4 }, .octUp] := by
+  refine ⟨trivial, ⟨⟨by decide, by decide⟩, by decide⟩, trivial, ?_, trivial⟩
+  show inInt32 (_ + 1) = true
+  decide
 
 end Ctrmml.C05
